@@ -428,6 +428,52 @@ def _filler(i):
         to_onnx(lambda x: jnp.cumsum(x, axis=0) + jnp.arange(x.shape[0])[:, None], [(3 + i % 2, 2)])
 
 
+def _ties():
+    """behavioural ties on the real code (run inside a worker, after conversions have filled every cache)"""
+    import inspect
+    out = {}
+    try:
+        from jax2onnx.converter.ir_context import IRContext
+        names = []
+        objs = []
+        for _ in range(2):
+            c = IRContext(opset=23, enable_double_precision=False, input_specs=[])
+            names.append([c.fresh_name("x"), c.fresh_name("x"), c.builder.fresh_name("Add"), c.builder.fresh_name("Add")])
+            objs.append((id(c._name_counters), id(c.builder._counters), id(c._func_name_counters)))
+            c._func_name_counters[("custom", "f", "shared")] = 7
+            keep = c  # noqa: F841  (both contexts alive: ids comparable)
+            objs.append(c)
+        out["fresh_names_restart_per_context"] = [names[0] == names[1] and names[0] == ["x_0", "x_1", "Add_0", "Add_1"], str(names)]
+        c3 = IRContext(opset=23, enable_double_precision=False, input_specs=[])
+        out["func_counters_fresh_per_context"] = [c3._func_name_counters == {}, str(c3._func_name_counters)]
+    except Exception as e:  # noqa
+        out["fresh_names_restart_per_context"] = [False, f"{type(e).__name__}: {e}"]
+    try:
+        from jax2onnx.converter import lowering_dispatch as ld
+        from jax2onnx.plugins.plugin_system import PLUGIN_REGISTRY
+        bad, n = [], 0
+        warm = len(ld._LOWER_SIGNATURE_CACHE)
+        for name, plug in sorted(PLUGIN_REGISTRY.items()):
+            lower = getattr(plug, "lower", None)
+            if lower is None:
+                continue
+            n += 1
+            try:
+                want = "params" in inspect.signature(lower).parameters
+            except (TypeError, ValueError):
+                want = False
+            got_warm = ld._lower_accepts_params(lower)
+            key = getattr(lower, "__func__", lower)
+            ld._LOWER_SIGNATURE_CACHE.pop(key, None)
+            got_cold = ld._lower_accepts_params(lower)
+            if not (got_warm == got_cold == want):
+                bad.append(name)
+        out["signature_cache_transparent"] = [not bad and n > 0, f"{n} lowerings, {warm} entries warm, mismatches: {bad[:5]}"]
+    except Exception as e:  # noqa
+        out["signature_cache_transparent"] = [False, f"{type(e).__name__}: {e}"]
+    return out
+
+
 def worker(job_path):
     import warnings
     warnings.simplefilter("ignore")
@@ -464,6 +510,8 @@ def worker(job_path):
             except Exception as e:  # noqa
                 out["results"].append({"req": req, "pos": pos, "digest": None,
                                        "error": f"{type(e).__name__}: {str(e)[:200]}"})
+        elif op == "ties":
+            out["ties"] = _ties()
         elif op == "fail":
             out["failures"].append({"kind": st[1], "pos": pos, "raised": _failing(st[1], pos)})
         elif op == "filler":
@@ -664,17 +712,51 @@ def counter_scopes():
     for path in sorted(glob.glob(os.path.join(conv, "*.py"))) + [ps_path]:
         globs += [os.path.basename(path) + ":" + g for g in module_level_counters(path)]
     # the function-name allocator must read the dict from the context and must not keep module state
+    def mutable_globals(tree):
+        m = set()
+        for n in tree.body:
+            tg, val = [], None
+            if isinstance(n, ast.Assign):
+                tg, val = [t.id for t in n.targets if isinstance(t, ast.Name)], n.value
+            elif isinstance(n, ast.AnnAssign) and isinstance(n.target, ast.Name):
+                tg, val = [n.target.id], n.value
+            if val is not None and not isinstance(val, (ast.Constant, ast.Lambda, ast.Name, ast.Attribute, ast.Tuple, ast.JoinedStr)):
+                m.update(tg)
+        return m
+
+    def uses_module_state(path, fname, cls=None):
+        """names of module-level mutable objects that function `fname` references (and global/nonlocal use)"""
+        tree = ast.parse(open(path).read())
+        m = mutable_globals(tree)
+        hits, seen = set(), False
+        for c in ast.walk(tree):
+            if isinstance(c, ast.FunctionDef) and c.name == fname:
+                seen = True
+                for x in ast.walk(c):
+                    if isinstance(x, ast.Name) and x.id in m:
+                        hits.add(x.id)
+                    if isinstance(x, (ast.Global, ast.Nonlocal)):
+                        hits.update(x.names)
+        return seen, sorted(hits)
+
+    seen_a, st_a = uses_module_state(ps_path, "_allocate_friendly_name")
+    seen_b, st_b = uses_module_state(os.path.join(conv, "ir_builder.py"), "fresh_name")
+    seen_c, st_c = uses_module_state(os.path.join(conv, "ir_context.py"), "fresh_name")
     tree = ast.parse(ps_src)
     alloc_ok = False
     for n in ast.walk(tree):
         if isinstance(n, ast.FunctionDef) and n.name == "_allocate_friendly_name":
             src = ast.unparse(n)
-            alloc_ok = "getattr(ctx, '_func_name_counters'" in src and not any(isinstance(x, (ast.Global, ast.Nonlocal)) for x in ast.walk(n))
-    res["builder"] = (b_ok and builder_per_ctx and ctx_per_conv and not globs,
+            alloc_ok = "getattr(ctx, '_func_name_counters'" in src and seen_a and not st_a
+    b_ok = b_ok and seen_b and not st_b
+    c_ok = c_ok and seen_c and not st_c
+    count_globs = list(globs)
+    globs += [f"module state used by a name generator: {x}" for x in st_a + st_b + st_c]
+    res["builder"] = (b_ok and builder_per_ctx and ctx_per_conv and not count_globs,
                       f"IRBuilder.__init__ sets _counters={{}}: {b_ok}; IRBuilder built in IRContext.__init__: {builder_per_ctx}")
-    res["context"] = (c_ok and ctx_per_conv and not globs,
+    res["context"] = (c_ok and ctx_per_conv and not count_globs,
                       f"IRContext.__init__ sets _name_counters={{}}: {c_ok}; IRContext built per to_onnx: {ctx_per_conv}")
-    res["func"] = (f_ok and alloc_ok and ctx_per_conv and not globs,
+    res["func"] = (f_ok and alloc_ok and ctx_per_conv and not count_globs,
                    f"IRContext.__init__ sets _func_name_counters={{}}: {f_ok}; _allocate_friendly_name reads it from ctx, no global: {alloc_ok}")
     return res, globs
 
@@ -704,8 +786,9 @@ def make_jobs(ctx, reqs):
             seeds.append(x)
     plain = [["export", r] for r in reqs]
     for sd in seeds:
-        jobs.append({"id": f"seed-{sd}", "kind": "hashseed", "hashseed": sd, "steps": plain})
-    for h in range(3 if quick else 8):
+        jobs.append({"id": f"seed-{sd}", "kind": "hashseed", "hashseed": sd,
+                     "steps": plain + ([["ties"]] if sd == 0 else [])})
+    for h in range(2 if quick else 6):
         hr = __import__("random").Random(rng.randrange(2 ** 31))
         steps = []
         order = list(reqs)
@@ -728,13 +811,14 @@ def make_jobs(ctx, reqs):
                 steps.append(["fail", hr.choice(FAIL_KINDS)])
             steps.append(["export", r])
         jobs.append({"id": f"history-{h}", "kind": "history", "hashseed": 0, "steps": steps})
-    for i in range(2 if quick else 4):
+    for i in range(1 if quick else 3):
         jobs.append({"id": f"import-order-{i}", "kind": "import-order", "hashseed": 0,
                      "import_order": rng.randrange(2 ** 31), "steps": plain})
-    jobs.append({"id": "set-order-natural", "kind": "trace", "hashseed": 0, "set_order": "natural", "steps": plain})
+    if not quick:      # builtin order, traced (quick tier: the site trace comes from the forced-order jobs)
+        jobs.append({"id": "set-order-natural", "kind": "trace", "hashseed": 0, "set_order": "natural", "steps": plain})
     jobs.append({"id": "set-order-insertion", "kind": "set-order", "hashseed": 0, "set_order": "insertion", "steps": plain})
     jobs.append({"id": "set-order-reverse", "kind": "set-order", "hashseed": 0, "set_order": "reverse", "steps": plain})
-    for i in range(1 if quick else 5):
+    for i in range(1 if quick else 4):
         jobs.append({"id": f"set-order-shuffle-{i}", "kind": "set-order", "hashseed": 0, "set_order": "shuffle",
                      "set_order_seed": rng.randrange(2 ** 31), "steps": plain})
     return jobs
@@ -750,6 +834,8 @@ def run_job(job, work, timeout):
     env["JAX_PLATFORMS"] = "cpu"
     env["PYTHONPATH"] = HERE + os.pathsep + env.get("PYTHONPATH", "")
     env.pop("JAX2ONNX_ENABLE_STACKTRACE_METADATA", None)
+    for k in ("OMP_NUM_THREADS", "OPENBLAS_NUM_THREADS", "MKL_NUM_THREADS"):      # many workers run side by side
+        env.setdefault(k, "2")
     t = time.time()
     try:
         p = subprocess.run([sys.executable, os.path.abspath(__file__), "--worker", jp], env=env, cwd=work,
@@ -895,9 +981,14 @@ def run(ctx):
         return ctx
     base_job, base_res, _ = done["seed-0"]
     base = {r["req"]: outcome(r) for r in base_res["results"]}
-    base_setting = setting_of(base_job)
+    base_pos = {r["req"]: r["pos"] for r in base_res["results"]}
     save = os.path.join(ctx.work, "save")
     keep_dir = os.path.join(common.VERIF, "replays", "C14", "protos")
+
+    ties = base_res.get("ties") or {}
+    for nm in ("fresh_names_restart_per_context", "func_counters_fresh_per_context", "signature_cache_transparent"):
+        ok, detail = ties.get(nm, [False, "tie step did not run"])
+        ctx.oblige(f"tie:{nm}", ok, "tie", detail)
 
     compared = 0
     reported = set()
@@ -938,23 +1029,32 @@ def run(ctx):
                         if outcome(r) != o0:
                             report(req, "repeat", setting_of(job, reps[0]["pos"]), o0, setting_of(job, r["pos"]), outcome(r))
                             break
-        if dim is None:
-            dim = "set-order"      # the tracing set behaves like a builtin set: a difference would be one of the harness
+        ref_job, ref, ref_pos = base_job, base, base_pos
+        if kind in ("set-order", "trace"):
+            # forced orders are compared with each other (reference: insertion order), so that anything the
+            # instrumented set class might change besides the order cancels out
+            dim = "set-order"
+            if jid == "set-order-insertion" or "set-order-insertion" not in done:
+                continue
+            ref_job = done["set-order-insertion"][0]
+            ref = {r["req"]: outcome(r) for r in done["set-order-insertion"][1]["results"]}
+            ref_pos = {r["req"]: r["pos"] for r in done["set-order-insertion"][1]["results"]}
         for req, rs in by_req.items():
-            if req not in base:
+            if req not in ref:
                 continue
             for r in rs:
                 compared += 1
-                if outcome(r) != base[req]:
-                    report(req, dim, base_setting, base[req], setting_of(job, r["pos"]), outcome(r))
+                if outcome(r) != ref[req]:
+                    report(req, dim, setting_of(ref_job, ref_pos[req]), ref[req], setting_of(job, r["pos"]), outcome(r))
                     break
 
     # keep the protos of reported differences for the replay
+    known = {(k["property"], k["key"]) for k in common.load_known() if k.get("status") == "known"}
     for v in ctx.violations:
         fl = v["replay"].pop("_files", {})
         kept = {}
         for k, pth in fl.items():
-            if os.path.exists(pth):
+            if os.path.exists(pth) and (ctx.prop, v["key"]) not in known:
                 os.makedirs(keep_dir, exist_ok=True)
                 dst = os.path.join(keep_dir, os.path.basename(pth))
                 if not os.path.exists(dst):
@@ -984,7 +1084,7 @@ def run(ctx):
     exercised2 = sorted(k for k in all_site_keys if site_max.get(k, 0) >= 2)
     not_ex = sorted(k for k in all_site_keys if site_max.get(k, 0) < 2)
     per_req_sites = {}
-    tr = done.get("set-order-natural")
+    tr = done.get("set-order-natural") or done.get("set-order-insertion")
     if tr:
         for r in tr[1]["results"]:
             for (fk, ln, n) in r.get("sites", []):
